@@ -245,21 +245,21 @@ func runTopo(e *Env) {
 			}
 		}
 		pick := func() *node.Host { return others[tp.Next(len(others))] }
-		ws := []int{3, 3, 2, 2, 2, 2, 1, 1, 2, 1, 2, 0, 2, 0, 0}
+		ws := []int{3, 3, 2, 2, 2, 2, 1, 1, 2, 1, 2, 0, 2, 0, 0, 0}
 		if st.splitAddrs && len(others) > 0 {
 			ws[11] = 3
 		}
 		if longTimeout {
-			ws[13], ws[14] = 3, 3
+			ws[13], ws[14], ws[15] = 3, 3, 3
 		}
 		if len(others) == 0 {
 			ws[1], ws[2], ws[3], ws[4], ws[6], ws[7] = 0, 0, 0, 0, 0, 0
 		}
 		if len(cl.Hosts) >= 6 {
-			ws[0], ws[13], ws[14] = 0, 0, 0
+			ws[0], ws[13], ws[14], ws[15] = 0, 0, 0, 0
 		}
 		if e.NoFaults {
-			ws = []int{1, 0, 0, 0, 0, 0, 0, 0, 1, 0, 0, 0, 0, 0, 0}
+			ws = []int{1, 0, 0, 0, 0, 0, 0, 0, 1, 0, 0, 0, 0, 0, 0, 0}
 		}
 		peersBefore := cl.PeerQueries
 		switch tp.Weighted(ws) {
@@ -473,6 +473,31 @@ func runTopo(e *Env) {
 				// both debounce windows pass while the handshake is still unanswered
 				k.SettleUntil(2500*time.Millisecond, 20*time.Millisecond, cl.Process, func() bool { return false })
 				k.Probe("leave-during-first-dial")
+			}
+			slowHost = ""
+		case 15: // a node joins, is slow to answer its first handshake, and is reported DOWN
+			// before it does; then it answers. It stays a member: reported down, reachable.
+			h := st.newHost()
+			cl.Hosts = append(cl.Hosts, h)
+			k.Rec("step join %s (slow handshake), reported DOWN before its first connection is up", h.Addr)
+			k.Fault("topo.down-during-first-dial")
+			slowHost = h.Addr
+			st.eventFor("TOPOLOGY_CHANGE", "NEW_NODE", h)
+			dialling := k.SettleUntil(4*time.Second, 20*time.Millisecond, cl.Process, func() bool {
+				for _, r := range cl.Held() {
+					if r.SC.C.Host == h.Addr {
+						return true
+					}
+				}
+				return false
+			})
+			if dialling {
+				st.down[h.Addr] = true
+				k.Rec("  first connection waits for its handshake; %s is reported DOWN", h.Addr)
+				st.eventFor("STATUS_CHANGE", "DOWN", h)
+				// the event debounce passes while the handshake is still unanswered
+				k.SettleUntil(1500*time.Millisecond, 20*time.Millisecond, cl.Process, func() bool { return false })
+				k.Probe("down-during-first-dial")
 			}
 			slowHost = ""
 		case 11: // same host id, same rpc address, new node-to-node address
